@@ -132,6 +132,19 @@ theorem HRelE.proj (pa : String) (T' T : Table) (h : HRelE pa T' T) (p : Proj) (
   rw [← heq.map_eq (projOut A env p) (projOut_equiv A env p)]
   exact h1
 
+theorem HRelE.projT (pa : String) (T' T : Table) (h : HRelE pa T' T) (p : Proj) (s : List String) (hs : pa ∉ s)
+    (hitems : p.items.all (fun it => match it.expr with | .plain e => Spec.exprOk s e | .agg _ a => Spec.exprOk s a) = true)
+    (hplain : p.items.any Spec.isAgg = false) (hal : pa ∉ p.items.map (·.alias)) :
+    HRel pa (projTable A env p T') (projTable A env p T) := by
+  obtain ⟨T'', hp, heq⟩ := h
+  have h1 : HRel pa (projTable A env p T') (projTable A env p T'') :=
+    HRel.projT A env pa T' T'' hp p s hs hitems hplain hal
+  have : projTable A env p T'' = projTable A env p T := by
+    unfold projTable
+    rw [heq.map_eq (projOut A env p) (projOut_equiv A env p)]
+  rw [← this]
+  exact h1
+
 /-- the reference's core clauses respect `HRelE` -/
 theorem denote_bag_congrE (pa : String) (q : Query) : ∀ (b : Bool) (s s' : List String) (T' T : Table),
     bagClauses b q = true → Spec.scopeAfter s q = some s' → pa ∉ s → pa ∉ introduced q → HRelE pa T' T →
@@ -186,7 +199,7 @@ theorem denote_bag_congrE (pa : String) (q : Query) : ∀ (b : Bool) (s s' : Lis
           obtain ⟨⟨⟨⟨_, _⟩, hitems⟩, _⟩, _⟩ := hok
           simp only [Spec.denoteClauses, denoteProj_bag A env p _ hc'.1, bind, Except.bind]
           exact denote_bag_congr A env pa rest true _ s' _ _ hc'.2 hs hin.1 hin.2
-            (HRelE.proj A env pa T' T hrel p s hpa hitems hb.1.1.1.1 hin.1)
+            (HRelE.projT A env pa T' T hrel p s hpa hitems hb.1.1.1 hin.1)
         · cases hs
     | return_ p =>
       have hc' : bagProj p = true ∧ rest = [] := by
@@ -204,20 +217,14 @@ theorem denote_bag_congrE (pa : String) (q : Query) : ∀ (b : Bool) (s s' : Lis
         unfold Spec.projOk at hok
         simp only [Bool.and_eq_true] at hok
         obtain ⟨⟨⟨⟨_, _⟩, hitems⟩, _⟩, _⟩ := hok
-        have hr := HRelE.proj A env pa T' T hrel p s hpa hitems hb.1.1.1.1 hin
-        have hord : p.orderBy = [] := hb.1.1.1.2
-        refine ⟨.bag (T'.map (projOut A env p)), .bag (T.map (projOut A env p)), ?_, ?_, ?_⟩
+        have hr := HRelE.projT A env pa T' T hrel p s hpa hitems hb.1.1.1 hin
+        have hord : p.orderBy = [] := hb.1.1.2
+        refine ⟨.bag (projTable A env p T'), .bag (projTable A env p T), ?_, ?_, ?_⟩
         · simp [Spec.denoteClauses, denoteProj_bag A env p _ hcp, bind, Except.bind, pure, Except.pure, hord]
         · simp [Spec.denoteClauses, denoteProj_bag A env p _ hcp, bind, Except.bind, pure, Except.pure, hord]
-        · show (T'.map (projOut A env p)).Perm (T.map (projOut A env p))
+        · show (projTable A env p T').Perm (projTable A env p T)
           unfold HRel at hr
-          have hid : (T'.map (projOut A env p)).map (eraseCol pa) = T'.map (projOut A env p) := by
-            rw [List.map_map]
-            apply List.map_congr_left
-            intro r _
-            apply eraseCol_of_not_mem
-            simpa [projOut, Row.cols, List.map_map, Function.comp_def] using hin
-          rw [hid] at hr
+          rw [map_erase_id pa _ (projTable_cols A env pa p T' hin)] at hr
           exact hr
       · cases hs
 
